@@ -199,7 +199,11 @@ let jctx (c : ctx) (with_trace : bool) : (string * json) list =
       (all c.symbols) in
   [ ("passes", jint (int_of_nat c.pass_idx + 1)); ("segments", Arr segs); ("segment_pcs", Arr segpcs); ("symbols", Arr syms);
     ("vice", Arr (List.map (fun (p, v) -> Arr [ Str (string_of_path p); jz v ]) (vice_symbols c)));
-    ("var_changes", jnat c.g_vch); ("nodes", jint (List.length c.symbols.nodes)) ]
+    ("var_changes", jnat c.g_vch); ("nodes", jint (List.length c.symbols.nodes));
+    (* symbols the last pass did not write (their pass stamp is older): values left over from an earlier pass *)
+    ("stale", Arr (List.filter_map (fun ((p, _), s) ->
+         if int_of_nat s.s_pass < int_of_nat c.pass_idx && s.s_span <> None then Some (Arr [ Str (string_of_path p); Str (symtype_name s.s_ty) ]) else None)
+         (all c.symbols))) ]
   @ (if with_trace then [ ("trace", Arr (List.rev_map jevent c.g_trace)) ] else [])
 
 let options_of (req : json) : options =
